@@ -7,7 +7,7 @@ ROOT = os.path.dirname(os.path.dirname(os.path.abspath(__file__)))
 
 # pid -> (technique, level text, level note, design ref)
 CLAIMED = {
-    "C04": ("bounded-exhaustive enumeration of all ordered forests (<=5..7 nodes, depth<=5) per vendor through the real join/split/parse_to_tree, compared with the tree and with an independent renderer",
+    "C04": ("bounded-exhaustive enumeration of all ordered forests (<=5..7 nodes, depth<=5) per vendor through the real join/split/parse_to_tree, compared with the tree and with an independent renderer; plus every ordered pair of vendors in a process forked from a fresh interpreter (history of formatter use)",
             "For each of the 14 registered vendors every in-domain forest up to the bound is rendered and parsed back (tree equality incl. "
             "order), re-rendered (fixed point), rendered through annet gen's format_config_blocks, compared character by character with an "
             "independent vendor-syntax printer, and device-style text from that printer is parsed to the same tree.",
@@ -20,7 +20,7 @@ CLAIMED = {
             "and Huawei splitters and are compared with the reference tree.",
             "Trusted: mc/ref/offside.py; tabs count one column in both models; line/number/level frame locals excluded from the state (argued in the check).",
             "DESIGN.md §3 C05"),
-    "C06": ("bounded-exhaustive enumeration of (ACL text, forest) and (ACL pair, forest) through the real apply_acl/filter_config against a reference cover relation",
+    "C06": ("bounded-exhaustive enumeration of (ACL text, forest) and (ACL pair, forest) through the real apply_acl/filter_config against a reference cover relation; plus all two-step histories of forests on one freshly compiled ACL for the ACLs with overlapping rules",
             "For every ACL of the grammar and every forest up to 4-5 nodes over the ACL's row alphabet (plus a negated-row family): result "
             "equals the reference filter, is an order-preserving subtree, idempotent, strict mode raises AclError naming the first uncovered "
             "row iff the reference finds one; for ACL pairs the merged ACL passes everything either passes alone (one recorded known finding).",
@@ -39,26 +39,26 @@ CLAIMED = {
             "checks the final device state against an independent expectation, emptiness of the second diff/patch.",
             "Trusted: the reference device and rule-selection models (mc/ref/device.py, mc/ref/rb.py); universes bounded to <=36 (quick) / <=400 (thorough) configs per rulebook.",
             "DESIGN.md §3 C01"),
-    "C02": ("bounded-exhaustive enumeration of (ACL text or merged ACL pair, old, new) through the real compile_acl_text/_diff_and_patch; command paths judged by a reference ACL cover relation, effects by a reference device",
+    "C02": ("bounded-exhaustive enumeration of (ACL text or merged ACL pair, old, new) through the real compile_acl_text/_diff_and_patch; command paths judged by a reference ACL cover relation, effects by a reference device; generator output with rows in negated form enumerated separately; a violation that only a long-lived compiled ACL shows is reported with the earlier case that makes it appear",
             "Every ACL of a grammar (nesting, *, ~, %global, %cant_delete=0/1, interface default, merged generator ACLs) x all pairs of "
             "small forests over the ACL's row alphabet: every command path must be ACL-covered level by level, uncovered rows of the "
             "device must survive untouched, cant_delete rows must survive.",
             "Trusted: mc/ref/acl.py cover relation (domain: unambiguous sibling rules), mc/ref/device.py, a fixed default-logic rulebook whose keys capture whole rows.",
             "DESIGN.md §3 C02"),
-    "C03": ("bounded-exhaustive enumeration of all (old,new) pairs of each rulebook's config universe through the real make_diff/strip_unchanged/formatter.diff/gen_pre_as_diff against a path-wise reference",
+    "C03": ("bounded-exhaustive enumeration of all (old,new) pairs of each rulebook's config universe through the real make_diff/strip_unchanged/formatter.diff/gen_pre_as_diff against a path-wise reference; plus the `annet diff` worker end to end on the shipped corpus (stub Loader, real generators) with property-level oracles",
             "Every ordered pair of configs of every grammar rulebook is diffed by the real code; op exactness per path, both projections, "
             "UNCHANGED soundness, MOVED minimality in %ordered groups, self-diff emptiness and read-back of both textual renderings "
             "are compared with a reference computed from the configs and the rulebook structure.",
             "Trusted: mc/ref/rb.py rule selection; the small readers of the signed formats in the check.",
             "DESIGN.md §3 C03"),
-    "C08": ("bounded-exhaustive enumeration: ordering rulebooks x all (old,new) patches of a fixed rulebook against a reference rank; shipped corpus x deleted unchanged rows; all vendors x forests through order_config",
+    "C08": ("bounded-exhaustive enumeration: ordering rulebooks x all (old,new) patches of a fixed rulebook against a reference rank; shipped corpus x deleted unchanged rows; all vendors x forests through order_config; plus the `annet gen` worker end to end on the shipped corpus",
             "Every ordering rulebook of a grammar (<=3 disjoint sibling rules, nesting, %order_reverse pins, %global) against every patch the "
             "real pipeline yields over a complete config universe: sibling order must respect the reference rank, removal precedes re-creation, "
             "the command multiset does not depend on the ordering rulebook; on the shipped corpus deleting an unchanged line keeps the relative "
             "order; order_config only permutes, is idempotent and keeps unmentioned rows in order, for all 14 vendors.",
             "Trusted: reference rank in the check (rules numbered from 1); disjoint-language ordering rulebooks.",
             "DESIGN.md §3 C08"),
-    "C09": ("bounded-exhaustive enumeration of PatchTrees (synthetic forests and real make_patch outputs) x vendors x commit/finalize flags; displayed patch, cmd_paths and apply_deploy_rulebook compared line by line; deploy-rule parameters against a reference chain matcher",
+    "C09": ("bounded-exhaustive enumeration of PatchTrees (synthetic forests and real make_patch outputs) x vendors x commit/finalize flags; displayed patch, cmd_paths and apply_deploy_rulebook compared line by line; deploy-rule parameters against a reference chain matcher; plus the production callers: CliDeployerJob.parse_result on the shipped corpus, and `annet patch` worker vs deploy job end to end",
             "All PatchTree forests up to 4-5 nodes over per-vendor alphabets (with the formatters' special block heads) for 10 block-structured "
             "and 3 flattening vendors, all PatchTrees the real make_patch yields over small grammar universes, and generated deploy "
             "rulebooks: the three renderings must agree, the session wrapper must equal a hand-written table, and every Command must carry "
@@ -85,7 +85,7 @@ CLAIMED = {
             "ones with a preemption bound; every execution is judged: delivered multiset == submitted, payloads, termination, no hang.",
             "Trusted: the virtual Queue/Process semantics in mc/sched.py (feeder flush before exit; timed get raises Empty only on an empty pipe); task bodies pure; no external kill.",
             "DESIGN.md §3 C12"),
-    "C13": ("bounded-exhaustive enumeration of JSON document pairs of one schema x glob pointer lists through the real apply_json_fragment / make_patch+apply_patch / apply_acl_filters / new_json_fragment_files against a set-theoretic reference on flattened paths",
+    "C13": ("bounded-exhaustive enumeration of JSON document pairs of one schema x glob pointer lists through the real apply_json_fragment / make_patch+apply_patch / apply_acl_filters / new_json_fragment_files against a set-theoretic reference on flattened paths; PCDeployerJob.parse_result for JSON-fragment files bound to make_patch; the other file's generator at every position of the chain",
             "All (old, fragment) pairs whose union fills <=1-2 leaf slots at depth <=3 over key sets including '/', '~', '|', '*' keys x all 169 lists "
             "of 1-2 patterns: selected parts equal the fragment, the rest equals old, re-merging changes nothing; all ordered document pairs "
             "(incl. all arrays <=3 elements) round-trip through make_patch/apply_patch; filters return sub-documents; two-generator chains.",
@@ -109,7 +109,7 @@ CLAIMED = {
             "file_patch_worker/file_diff_worker on real temp files agree with the device rendering; exceptions must be two-sided.",
             "Trusted: nothing hand-written is expected (both sides are annet code); cause labels are informational.",
             "DESIGN.md §3 C16"),
-    "C17": ("bounded-exhaustive enumeration of forests over mechanically derived row universes for 16 hardware classes through the real implicit.config/merge_dicts and the shipped rulebooks, against an independent completion reference",
+    "C17": ("bounded-exhaustive enumeration of forests over mechanically derived row universes for 16 hardware classes through the real implicit.config/merge_dicts and the shipped rulebooks, against an independent completion reference; plus the real annet.gen._old_new_per_device (add_implicit, --acl-safe) on (device text, unsafe generator, safe generator) triples",
             "All forests <=5-6 nodes per class: explicit rows kept, completion idempotent, default present iff no row of the rule's pattern at that place; "
             "pairs (t,u): no patch command for a default absent from both sides; one recorded known finding (default next to another explicit value).",
             "Trusted: mc/ref/implicitref.py (own parser and matcher); clause 4 judged where both sides have the parent block (stated premise).",
@@ -120,13 +120,13 @@ CLAIMED = {
             "loading/determinism on fresh providers are compared with a naive regex-chain reference.",
             "Trusted: Python re; mc/hwmodels.py synthesiser (every model re-validated by re.search); devdb.json read as data.",
             "DESIGN.md §3 C18"),
-    "C19": ("bounded-exhaustive enumeration of Entire-generator sets x listing permutations x old file maps x reload flags through run_file_generators -> PCDeployerJob.parse_result / pc_diff",
+    "C19": ("bounded-exhaustive enumeration of Entire-generator sets x listing permutations x old file maps x reload flags through run_file_generators -> PCDeployerJob.parse_result / pc_diff; every listing also through the real annet.gen._old_new_per_device (pc branch)",
             "Complete under the bound (1-3 generators over 2 paths, 4 contents, reload strings, safe flags; all permutations; all old maps; "
             "entire_reload yes/no/force; acl_safe): winner selection, upload decision, uploaded bytes, reload attachment and pc_diff are "
             "compared with a table-driven reference. Four recorded known findings (line-diff based upload decision).",
             "Trusted: mc/ref/filedev.py decision table; harness DeployDriver with empty command lists; stage-2 de-duplication keyed on the fields parse_result reads (guarded by a recording OldNewResult).",
             "DESIGN.md §3 C19"),
-    "C20": ("explicit-state search over job histories: every node a live interpreter forked from a cold template, every edge one job run once in a forked process, de-duplicated by a fingerprint of all process-global annet state",
+    "C20": ("explicit-state search over job histories: every node a live interpreter forked from a cold template, every edge one job run once in a forked process, de-duplicated by a fingerprint of all process-global annet state; five jobs repeated with plain-dict trees",
             "34 jobs (shipped corpus x 6 vendors with and without shared compiled ACLs, order_config, synthetic rulebooks whose logic writes "
             "to its rule argument): result(j | history) == result(j | fresh process) for all histories to depth 2 (quick) / 3 (thorough, "
             "fingerprint-pruned), deep snapshots of old/new/compiled rulebooks equal before and after every call.",
@@ -169,7 +169,7 @@ manifest = {
     },
     "engines": [
         {"name": "mc", "path": "/verif/mc", "serves_properties": sorted(CLAIMED),
-         "kind_free_text": "hand-written explicit-state / bounded-exhaustive explorer for Python (mc/core.py sharded driver, mc/sched.py controlled scheduler, mc/space.py BFS) running the real annet code against reference models in mc/ref"},
+         "kind_free_text": "hand-written explicit-state / bounded-exhaustive explorer for Python (mc/core.py sharded driver, mc/sched.py controlled scheduler, mc/e2e.py end-to-end seam for the production workers) running the real annet code against reference models in mc/ref"},
     ],
     "checks": checks,
     "not_applicable": na,
